@@ -59,18 +59,39 @@ class C { int f(int a) { if (a > 0) { return 1; } else return 2; } void g() { fo
 }
 
 
-def render_tree(tokens):
-    """abstract tokens -> C function body; unique operands so that the abstraction back is unambiguous"""
+# brace options other than plain removal: the same trees, judged for MeaningKept / OnlyNamedKinds / Balanced only
+TREE_CFGS = {
+    "chain1": "mod_full_brace_if_chain=1\n",
+    "chain1ml": "mod_full_brace_if_chain=1\nmod_full_brace_nl_block_rem_mlcond=true\n",
+    "chain2ml": "mod_full_brace_if_chain=2\nmod_full_brace_nl_block_rem_mlcond=true\n",
+    "chain3": "mod_full_brace_if_chain=3\nmod_full_brace_for=remove\nmod_full_brace_while=remove\n",
+    "chain3ml": "mod_full_brace_if_chain=3\nmod_full_brace_nl_block_rem_mlcond=true\nmod_full_brace_while=remove\n",
+    "removeml": BRACE_CFG + "mod_full_brace_nl_block_rem_mlcond=true\n",
+    "nl2": BRACE_CFG + "mod_full_brace_nl=2\n",
+    "nl3chain": "mod_full_brace_if_chain=1\nmod_full_brace_nl=3\nmod_full_brace_for=remove\n",
+    "add": "mod_full_brace_if=add\nmod_full_brace_for=add\nmod_full_brace_while=add\n",
+    "force_chainonly": "mod_full_brace_if=force\nmod_full_brace_if_chain_only=true\nmod_full_brace_if_chain=1\n",
+}
+ML = {"flat": lambda k: False, "all": lambda k: True, "odd": lambda k: k % 2 == 1, "even": lambda k: k % 2 == 0}
+
+
+def render_tree(tokens, ml="flat"):
+    """abstract tokens -> C function body; unique operands so that the abstraction back is unambiguous.  ml selects the
+    heads ('if' / loop conditions) that are written over two lines (mod_full_brace_nl_block_rem_mlcond looks at that)"""
     out = ["int t(int a0)", "{"]
     n = 0
+    heads = 0
     for t in tokens:
         n += 1
+        if t in ("I", "L"):
+            heads += 1
+        br = "\n        " if ML[ml](heads) else " "
         if t == "I":
-            out.append("if (a%d > %d)" % (n, n))
+            out.append("if (a%d >%s%d)" % (n, br, n))
         elif t == "E":
             out.append("else")
         elif t == "L":
-            out.append("while (n%d--)" % n if n % 2 else "for (i%d = 0; i%d < %d; i%d++)" % (n, n, n, n))
+            out.append("while (n%d >%s--m%d)" % (n, br, n) if n % 2 else "for (i%d = 0; i%d <%s%d; i%d++)" % (n, n, br, n, n))
         elif t == "S":
             out.append("x%d++;" % n)
         else:
@@ -123,13 +144,14 @@ def abstract(text):
 
 
 def _tree_job(a):
-    unc, tmp, i, tr = a
+    unc, tmp, i, tr, cname, ml = a
     src = os.path.join(tmp, "t%d.c" % i)
-    obs.write(src, render_tree(tr["tokens"]))
-    rc, so, se = sh([unc, "-c", os.path.join(tmp, "brace.cfg"), "-q", "-l", "C", "-f", src], cwd=tmp, timeout=20)
+    obs.write(src, render_tree(tr["tokens"], ml))
+    rc, so, se = sh([unc, "-c", os.path.join(tmp, cname + ".cfg"), "-q", "-l", "C", "-f", src], cwd=tmp, timeout=20)
     os.unlink(src)
     ab = abstract(obs.decode(so)) if rc == 0 else []
-    return {"e": "Tree", "id": "tree|%d" % i, "rc": rc, "tokens": tr["tokens"], "after": tr["after"] if tr["after"] is not None else ab, "abs": ab}
+    return {"e": "Tree", "id": "tree|%d" % i, "rc": rc, "tokens": tr["tokens"], "after": tr["after"] if tr["after"] is not None else ab, "abs": ab,
+            "cfg": cname, "ml": ml}
 
 
 def mod_settings(cfg_text):
@@ -249,7 +271,22 @@ def run(ctx):
     trees = trees + [dict(t, after=None) for t in hazard_trees[:400 if quick else 100000]]
     tmp = ctx.work.sub("c04")
     obs.write(os.path.join(tmp, "brace.cfg"), BRACE_CFG + "nl_max=0\n")
-    evs = pmap_proc(_tree_job, [(unc, tmp, i, t) for i, t in enumerate(trees)], nproc=14)
+    for cn, ct in TREE_CFGS.items():
+        obs.write(os.path.join(tmp, cn + ".cfg"), ct)
+    tjobs = [(unc, tmp, i, t, "brace", "flat") for i, t in enumerate(trees)]
+    # the other brace options x conditions written over two lines: trees with at least two heads
+    nested = [t for t in trees if sum(1 for x in t["tokens"] if x in ("I", "L")) >= 2]
+    ctx.rng.shuffle(nested)
+    for t in nested[:500 if quick else 6000]:
+        for cn in TREE_CFGS:
+            for ml in (("odd", "even") if quick else ("flat", "all", "odd", "even")):
+                tjobs.append((unc, tmp, len(tjobs), dict(t, after=None), cn, ml))
+    for ml in ("all", "odd", "even"):
+        for t in nested[:300 if quick else 3000]:
+            tjobs.append((unc, tmp, len(tjobs), dict(t, after=None), "brace", ml))
+    tjobs = [(a_[0], a_[1], k, a_[3], a_[4], a_[5]) for k, a_ in enumerate(tjobs)]
+    ctx.cov["tree_option_families"] = ["brace"] + sorted(TREE_CFGS)
+    evs = pmap_proc(_tree_job, tjobs, nproc=14)
     # files x mod configurations
     jobs = []
     mo = mod_options(unc)
@@ -307,8 +344,10 @@ def run(ctx):
             e = byid[rep["id"]]
             for b in rep["bad"]:
                 if e["e"] == "Tree":
-                    ctx.violation("%s|tree|%s" % (b, "".join(e["tokens"])), "%s violated: statement tree %s comes out as %s (model: %s)" % (
-                        b, " ".join(e["tokens"]), " ".join(e["abs"]), " ".join(e["after"])), {"kind": "tree", "tokens": e["tokens"]})
+                    ctx.violation("%s|tree|%s|%s|%s" % (b, "".join(e["tokens"]), e["cfg"], e["ml"]),
+                                  "%s violated: statement tree %s (options %s, conditions on two lines: %s) comes out as %s (model: %s)" % (
+                        b, " ".join(e["tokens"]), e["cfg"], e["ml"], " ".join(e["abs"]), " ".join(e["after"])),
+                        {"kind": "tree", "tokens": e["tokens"], "cfg": e["cfg"], "ml": e["ml"]})
                 else:
                     jid, src, cfg, cfg_text, lang = fj[e["id"]]
                     k, x, y = pe.first_diff(e["tin"], e["tout"])
@@ -342,8 +381,8 @@ def replay(path):
     try:
         if r["kind"] == "tree":
             src = os.path.join(d, "t.c")
-            obs.write(src, render_tree(r["tokens"]))
-            obs.write(os.path.join(d, "brace.cfg"), BRACE_CFG)
+            obs.write(src, render_tree(r["tokens"], r.get("ml", "flat")))
+            obs.write(os.path.join(d, "brace.cfg"), TREE_CFGS.get(r.get("cfg", "brace"), BRACE_CFG))
             rc, so, se = sh([unc, "-c", os.path.join(d, "brace.cfg"), "-q", "-l", "C", "-f", src])
             print(open(src).read())
             print("---- formatted (rc=%d)" % rc)
